@@ -55,7 +55,13 @@ RULE = (
     "2^T flag patterns of column 0 is generated for each of the base configurations (exhaustive incl. first, last, "
     "next_done), thorough adds every joint pattern of two columns for T<=3; one learn call with all taps + one "
     "perturbed learn call (metamorphic no-leak) per case; non-trivial = the recursion check compared at least one "
-    "column AND the flattened rows were decoded; distinct = distinct case descriptions"
+    "column AND the flattened rows were decoded; distinct = distinct case descriptions. Second workload (mode=loop, "
+    "vf/props/c17_loops.py): the real train_on_policy / train_multi_agent_on_policy run PPO / IPPO on a scripted "
+    "environment (vectorised with same-step auto-reset, or a bare single environment; episodes of 2-4 steps ending in the "
+    "middle of rollouts; Discrete, tight / asymmetric / wide Box actions, squashed policies) that keeps a ground-truth "
+    "log; a class-level wrapper around learn() compares every stored observation, reward, done flag (one step late), "
+    "next_done, next observation with the log, the action the environment received with clip/scale of the stored "
+    "action, and the stored old log-prob / old value with the not-yet-updated policy at the stored observation and action"
 )
 ASSUMPTIONS = [
     "gamma and gae_lambda of the estimate are the agent's attribute values at the time learn() is called (read by the "
@@ -80,6 +86,8 @@ ASSUMPTIONS = [
     "through the sampled old log-probs / advantages of the single minibatch",
 ]
 REQUIRED_COUNTERS = [
+    "loop_logprob_checks",
+    "loop_done_flag_checks",
     "tap_records",
     "gae_input_columns",
     "bootstrap_value_checks",
@@ -256,6 +264,14 @@ def cases(tier, seed):
         if rng.random() < 0.25:  # off-grid discount / trace parameters
             kw = {"gamma": round(float(rng.random()), 3), "lam": round(float(rng.random()), 3)}
         out.append(_mk(rng, algo, vect, T, E, shared, other, **kw))
+    # ---- second workload: the real training loops build the rollouts (vf/props/c17_loops.py)
+    from vf.props.c17_loops import loop_cases
+
+    loops = loop_cases(tier, seed)
+    # spread them so that every shard gets some
+    stride = max(1, len(out) // max(1, len(loops)))
+    for i, c in enumerate(loops):
+        out.insert(min(len(out), i * stride + i), c)
     return out
 
 
@@ -1174,7 +1190,12 @@ def run_case(case):
 
     rec = Recorder()
     try:
-        _run(case, rec)
+        if case.get("mode") == "loop":
+            from vf.props.c17_loops import run_loop_case
+
+            run_loop_case(case, rec)
+        else:
+            _run(case, rec)
     except CaseTimeout:
         raise
     except Exception as e:
@@ -1198,7 +1219,15 @@ def finalize(ctx):
         r = ctx["results"].get(idx)
         if r is None or r.get("status") != "ok":
             continue
+        if case.get("mode") == "loop":
+            continue
         if case["T"] <= 5:
             seen.setdefault((case["algo"], case["T"]), set()).add(case["flags"][0])
+    if c.get("loop_monitor_errors", 0) > 0 or c.get("loop_observability_lost", 0) > 0:
+        ex = []
+        for r in ctx["results"].values():
+            ex += (r.get("extra") or {}).get("loop_monitor_errors", [])
+        ctx["inconclusive"].append(f"loop workload: {int(c.get('loop_monitor_errors', 0))} monitor errors, "
+                                   f"{int(c.get('loop_observability_lost', 0))} learn calls without a ground-truth log: {ex[:2]}")
     cov = {f"{a}:T={t}": f"{len(s)}/{2 ** t}" for (a, t), s in sorted(seen.items())}
     return {"column0_done_patterns_executed": cov, "learn_calls": int(c.get("learn_calls", 0))}
